@@ -829,6 +829,238 @@ theorem MemSys.allOk_mono (ops : List Op) : ∀ {s : MemSys} {M' : Nat}, s.lim.m
     | err c' s' => simp [MemSys.AllOk, hst] at h
     | panic p => simp [MemSys.AllOk, hst] at h
 
+/-! ## monotonicity in the limit when the initial capacities differ (simulation) -/
+
+theorem Limiter.increase_ok_sim {l l1 l' : Limiter} {n : Nat} (h : l.increase n = .ok l1)
+    (hroom : l.max + l'.usage ≤ l'.max + l.usage) (hU : l'.max ≤ usizeMax) :
+    l'.increase n = .ok { l' with usage := l'.usage + n } := by
+  obtain ⟨h1, h2, h3, _⟩ := Limiter.increase_ok h
+  have a1 : ¬ usizeMax < l'.usage + n := by omega
+  have a2 : ¬ l'.max < l'.usage + n := by omega
+  simp [Limiter.increase, a1, a2]
+
+/-- What a successful `append` tells: either nothing had to grow, or the growth was charged within
+    the limit and is a legal allocation. -/
+theorem Arena.append_ok_nec {l l1 : Limiter} {a a1 : Arena} {bs : Bytes}
+    (h : Arena.append l a bs = .ok (l1, a1)) :
+    a1.data = a.data ++ bs ∧ l1.max = l.max ∧
+    ((¬ a.cap < a.len + bs.length ∧ l1 = l ∧ a1.cap = a.cap) ∨
+     (a.cap < a.len + bs.length ∧ a1.cap = a.len + bs.length ∧
+      l1.usage = l.usage + (bs.length + a.len - a.cap) ∧ l1.usage ≤ l.max ∧
+      a.len + bs.length ≤ isizeMax ∧ bs.length + a.len ≤ usizeMax)) := by
+  unfold Arena.append at h
+  split at h
+  · rename_i hc
+    split at h
+    · cases h
+    · rename_i ho
+      simp only at h
+      split at h
+      · cases h
+      · cases h
+      · rename_i l'' hinc
+        obtain ⟨i1, i2, i3, _⟩ := Limiter.increase_ok hinc
+        split at h
+        · cases h
+        · rename_i hi
+          cases h
+          refine ⟨rfl, i2, Or.inr ⟨hc, rfl, i1, by omega, by omega, by omega⟩⟩
+  · rename_i hc
+    cases h
+    exact ⟨rfl, rfl, Or.inl ⟨hc, rfl, rfl⟩⟩
+
+theorem Arena.append_suf_nogrow {l : Limiter} {a : Arena} {bs : Bytes}
+    (hc : ¬ a.cap < a.len + bs.length) :
+    Arena.append l a bs = .ok (l, { a with data := a.data ++ bs }) := by
+  simp [Arena.append, hc]
+
+theorem Arena.append_suf_grow {l : Limiter} {a : Arena} {bs : Bytes}
+    (hc : a.cap < a.len + bs.length) (h1 : bs.length + a.len ≤ usizeMax)
+    (h2 : l.usage + (bs.length + a.len - a.cap) ≤ l.max) (h3 : l.max ≤ usizeMax)
+    (h4 : a.len + bs.length ≤ isizeMax) :
+    Arena.append l a bs =
+      .ok ({ l with usage := l.usage + (bs.length + a.len - a.cap) },
+           { cap := a.len + bs.length, data := a.data ++ bs }) := by
+  have a0 : ¬ usizeMax < bs.length + a.len := by omega
+  have a1 : ¬ usizeMax < l.usage + (bs.length + a.len - a.cap) := by omega
+  have a2 : ¬ l.max < l.usage + (bs.length + a.len - a.cap) := by omega
+  have a3 : ¬ isizeMax < a.len + bs.length := by omega
+  simp [Arena.append, Limiter.increase, hc, a0, a1, a2, a3]
+
+/-- `push` under another limiter with at least as much headroom succeeds with the same vector. -/
+theorem LimitedVec.push_ok_sim {l l1 l' : Limiter} {v v1 : LimitedVec}
+    (h : LimitedVec.push l v = .ok (l1, v1))
+    (hroom : l.max + l'.usage ≤ l'.max + l.usage) (hU : l'.max ≤ usizeMax) :
+    ∃ l1', LimitedVec.push l' v = .ok (l1', v1) ∧ l1'.max = l'.max ∧ l1.max = l.max ∧
+      l1'.usage + l.usage = l'.usage + l1.usage ∧ l.usage ≤ l1.usage ∧
+      (l1.usage = l.usage ∨ l1.usage ≤ l1.max) := by
+  unfold LimitedVec.push at h ⊢
+  split at h
+  · rename_i hc
+    rw [if_pos hc]; cases h
+    exact ⟨l', rfl, rfl, rfl, by omega, by omega, Or.inl rfl⟩
+  · rename_i hc
+    rw [if_neg hc]
+    simp only at h ⊢
+    split at h
+    · cases h
+    · rename_i h1
+      rw [if_neg h1]
+      split at h
+      · cases h
+      · rename_i h2
+        rw [if_neg h2]
+        split at h
+        · cases h
+        · cases h
+        · rename_i l'' hinc
+          obtain ⟨i1, i2, i3, _⟩ := Limiter.increase_ok hinc
+          rw [Limiter.increase_ok_sim hinc hroom hU]
+          simp only
+          split at h
+          · cases h
+          · rename_i h3
+            rw [if_neg h3]
+            split at h
+            · cases h
+            · rename_i h4
+              rw [if_neg h4]
+              cases h
+              exact ⟨_, rfl, rfl, i2, by simp only; omega, by omega, Or.inr i3⟩
+
+/-- Simulation relation between the same run under a limit `M` (state `s`) and under a limit
+    `M' ≥ M` (state `s'`), whose initial buffer capacities may differ: same buffered bytes, same
+    stack, at least as much headroom (`M − usage ≤ M' − usage'`), and at least as much affordable
+    buffer length (`M − usage + cap ≤ M' − usage' + cap'`). -/
+structure Sim (s s' : MemSys) : Prop where
+  data : s'.arena.data = s.arena.data
+  vec : s'.vec = s.vec
+  clean : s.lim.usage ≤ s.lim.max
+  clean' : s'.lim.usage ≤ s'.lim.max
+  room : s.lim.max + s'.lim.usage ≤ s'.lim.max + s.lim.usage
+  afford : s.lim.max + s.arena.cap + s'.lim.usage ≤ s'.lim.max + s'.arena.cap + s.lim.usage
+  cap : s.arena.cap ≤ isizeMax
+  cap' : s'.arena.cap ≤ isizeMax
+  maxU : s'.lim.max ≤ usizeMax
+
+theorem Arena.append_sim {l l1 l' : Limiter} {a a1 a' : Arena} {bs : Bytes}
+    (h : Arena.append l a bs = .ok (l1, a1)) (hd : a'.data = a.data)
+    (hclean : l.usage ≤ l.max) (hclean' : l'.usage ≤ l'.max)
+    (hroom : l.max + l'.usage ≤ l'.max + l.usage)
+    (haff : l.max + a.cap + l'.usage ≤ l'.max + a'.cap + l.usage)
+    (hcap : a.cap ≤ isizeMax) (hcap' : a'.cap ≤ isizeMax) (hU : l'.max ≤ usizeMax) :
+    ∃ l1' a1', Arena.append l' a' bs = .ok (l1', a1') ∧ a1'.data = a1.data ∧
+      l1.max = l.max ∧ l1'.max = l'.max ∧ l1.usage ≤ l1.max ∧ l1'.usage ≤ l1'.max ∧
+      l1.max + l1'.usage ≤ l1'.max + l1.usage ∧
+      l1.max + a1.cap + l1'.usage ≤ l1'.max + a1'.cap + l1.usage ∧
+      a1.cap ≤ isizeMax ∧ a1'.cap ≤ isizeMax := by
+  have hs : isizeMax = 9223372036854775807 := rfl
+  have hu : usizeMax = 18446744073709551615 := rfl
+  have hlen : a'.len = a.len := by simp only [Arena.len, hd]
+  obtain ⟨n1, n2, n3⟩ := Arena.append_ok_nec h
+  by_cases hc' : a'.cap < a'.len + bs.length
+  · -- the run under M' has to grow its buffer
+    have key : bs.length + a'.len ≤ usizeMax ∧ l'.usage + (bs.length + a'.len - a'.cap) ≤ l'.max ∧
+        a'.len + bs.length ≤ isizeMax := by
+      rcases n3 with ⟨g1, g2, g3⟩ | ⟨g1, g2, g3, g4, g5, g6⟩
+      · subst g2; omega
+      · omega
+    refine ⟨_, _, Arena.append_suf_grow hc' key.1 key.2.1 hU key.2.2, ?_⟩
+    rcases n3 with ⟨g1, g2, g3⟩ | ⟨g1, g2, g3, g4, g5, g6⟩
+    · subst g2
+      refine ⟨by simp only [n1, hd], ?_, ?_, ?_, ?_, ?_, ?_, ?_, ?_⟩ <;>
+        first | rfl | assumption | omega | (simp only; omega)
+    · refine ⟨by simp only [n1, hd], ?_, ?_, ?_, ?_, ?_, ?_, ?_, ?_⟩ <;>
+        first | rfl | assumption | omega | (simp only; omega)
+  · refine ⟨_, _, Arena.append_suf_nogrow hc', ?_⟩
+    rcases n3 with ⟨g1, g2, g3⟩ | ⟨g1, g2, g3, g4, g5, g6⟩
+    · subst g2
+      refine ⟨by simp only [n1, hd], ?_, ?_, ?_, ?_, ?_, ?_, ?_, ?_⟩ <;>
+        first | rfl | assumption | omega | (simp only; omega)
+    · refine ⟨by simp only [n1, hd], ?_, ?_, ?_, ?_, ?_, ?_, ?_, ?_⟩ <;>
+        first | rfl | assumption | omega | (simp only; omega)
+
+theorem MemSys.step_sim {s s' t : MemSys} {op : Op} (r : Sim s s') (h : s.step op = .ok t) :
+    ∃ t', s'.step op = .ok t' ∧ Sim t t' := by
+  obtain ⟨rd, rv, rc, rc', rr, ra, rk, rk', ru⟩ := r
+  cases op with
+  | append bs =>
+    simp only [MemSys.step] at h
+    split at h
+    · rename_i l a heq
+      cases h
+      obtain ⟨l1', a1', e, q1, q2, q3, q4, q5, q6, q7, q8, q9⟩ :=
+        Arena.append_sim heq rd rc rc' rr ra rk rk' ru
+      refine ⟨{ s' with lim := l1', arena := a1' }, by simp only [MemSys.step, e], ?_⟩
+      exact ⟨q1, rv, q4, q5, q6, q7, q8, q9, by simp only; omega⟩
+    · cases h
+    · cases h
+  | initWith bs =>
+    simp only [MemSys.step, Arena.initWith] at h
+    split at h
+    · rename_i l a heq
+      cases h
+      obtain ⟨l1', a1', e, q1, q2, q3, q4, q5, q6, q7, q8, q9⟩ :=
+        Arena.append_sim (a' := { s'.arena with data := [] }) heq rfl rc rc' rr ra rk rk' ru
+      refine ⟨{ s' with lim := l1', arena := a1' }, by simp only [MemSys.step, Arena.initWith, e], ?_⟩
+      exact ⟨q1, rv, q4, q5, q6, q7, q8, q9, by simp only; omega⟩
+    · cases h
+    · cases h
+  | shift k =>
+    simp only [MemSys.step] at h
+    split at h
+    · rename_i a heq
+      cases h
+      obtain ⟨p1, p2, p3, p4⟩ := Arena.shift_ok heq
+      have hk : ¬ s'.arena.len < k := by simp only [Arena.len, rd] at *; omega
+      refine ⟨{ s' with arena := { s'.arena with data := s'.arena.data.drop k } },
+        by simp only [MemSys.step, Arena.shift, if_neg hk], ?_⟩
+      exact ⟨by simp only [rd, p3], rv, rc, rc', rr, by simp only [p2]; exact ra,
+        by simp only [p2]; exact rk, rk', ru⟩
+    · cases h
+    · cases h
+  | push =>
+    simp only [MemSys.step] at h
+    split at h
+    · rename_i l v heq
+      cases h
+      obtain ⟨l1', e, q1, q2, q3, q4, q5⟩ := LimitedVec.push_ok_sim (l' := s'.lim) heq rr ru
+      refine ⟨{ s' with lim := l1', vec := v }, by simp only [MemSys.step, rv, e], ?_⟩
+      exact ⟨rd, rfl, by simp only; omega, by simp only; omega, by simp only; omega,
+        by simp only; omega, rk, rk', by simp only; omega⟩
+    · cases h
+    · cases h
+  | drainTo k =>
+    simp only [MemSys.step] at h
+    split at h
+    · rename_i v heq
+      cases h
+      refine ⟨{ s' with vec := v }, by simp only [MemSys.step, rv, heq], ?_⟩
+      exact ⟨rd, rfl, rc, rc', rr, ra, rk, rk', ru⟩
+    · cases h
+    · cases h
+
+/-- What a caller can see of a trace entry besides the accounting: result, buffered bytes, stack. -/
+def view (x : Res × MemSys) : Res × Bytes × LimitedVec := (x.1, x.2.arena.data, x.2.vec)
+
+theorem MemSys.allOk_sim (ops : List Op) : ∀ {s s' : MemSys}, Sim s s' → s.AllOk ops →
+    s'.AllOk ops ∧ Sim (s.final ops) (s'.final ops) ∧ (s'.run ops).map view = (s.run ops).map view := by
+  induction ops with
+  | nil => intro s s' r _; exact ⟨trivial, by simpa [MemSys.final] using r, by simp [MemSys.run]⟩
+  | cons op rest ih =>
+    intro s s' r h
+    cases hst : s.step op with
+    | ok t =>
+      simp only [MemSys.AllOk, hst] at h
+      obtain ⟨t', hst', rt⟩ := MemSys.step_sim r hst
+      obtain ⟨r1, r2, r3⟩ := ih rt h
+      simp only [MemSys.AllOk, MemSys.final, MemSys.run, hst, hst', List.map_cons]
+      refine ⟨r1, r2, ?_⟩
+      rw [r3]
+      simp only [view, rt.data, rt.vec]
+    | err c t => simp [MemSys.AllOk, hst] at h
+    | panic p => simp [MemSys.AllOk, hst] at h
+
 /-! ## TransformStream::write -/
 
 /-- Invariant of the buffer part of a `TransformStream` under limit `M`. -/
